@@ -67,13 +67,18 @@ fn load_interface_from_paths(
                 err
             ))
         })?;
-        let unit: InterfaceUnit = serde_json::from_str(&json).map_err(|err| {
-            compile_error(format!(
-                "failed to parse interface {}: {}",
-                candidate.display(),
-                err
-            ))
-        })?;
+        // an exported type nests as deeply as the program wrote it: no fixed recursion limit
+        let mut deserializer = serde_json::Deserializer::from_str(&json);
+        deserializer.disable_recursion_limit();
+        let unit = <InterfaceUnit as serde::Deserialize>::deserialize(&mut deserializer)
+            .and_then(|unit| deserializer.end().map(|()| unit))
+            .map_err(|err| {
+                compile_error(format!(
+                    "failed to parse interface {}: {}",
+                    candidate.display(),
+                    err
+                ))
+            })?;
         if unit.package != package {
             return Err(compile_error(format!(
                 "interface {} declares package {}, expected {}",
